@@ -31,6 +31,12 @@ pub fn rate_loader() -> RateLoader {
 /// explicitly (empty = the `__global__` affiliate of a Split for all affiliates), so that the
 /// text determines the transactions whatever subset of rows ends up in one file.
 pub fn txs_to_csv(txs: &[Tx]) -> String {
+    txs_to_csv_spelled(txs, 1)
+}
+
+/// `spelling`: how affiliate names are typed — 0 as they are, 1 some rows in another capitalisation
+/// (decided by the row's content), 2 all lower case, 3 all upper case.
+pub fn txs_to_csv_spelled(txs: &[Tx], spelling: u8) -> String {
     let mut s = String::from(
         "security,trade date,settlement date,action,shares,amount/share,commission,currency,exchange rate,commission currency,commission exchange rate,superficial loss,split ratio,affiliate,memo\n",
     );
@@ -41,9 +47,14 @@ pub fn txs_to_csv(txs: &[Tx]) -> String {
         // (decided by the row's own content, so that a row is spelled the same in whatever file it is)
         let _ = ri;
         if !aff.is_empty() {
-            match (jd(t.settlement_date) as usize * 7 + jd(t.trade_date) as usize + aff.len()) % 13 {
-                0 => aff = aff.to_uppercase(),
-                1 => aff = aff.to_lowercase(),
+            match spelling {
+                1 => match (jd(t.settlement_date) as usize * 7 + jd(t.trade_date) as usize + aff.len()) % 13 {
+                    0 => aff = aff.to_uppercase(),
+                    1 => aff = aff.to_lowercase(),
+                    _ => {}
+                },
+                2 => aff = aff.to_lowercase(),
+                3 => aff = aff.to_uppercase(),
                 _ => {}
             }
         }
